@@ -182,7 +182,7 @@ class World:
         v = self.ex.deref_val(st, ctx.args[0])
         if not isinstance(v, Obj) or v.kind != 'symset':
             return None
-        fam = v.attrs['family']; op = ctx.callee.rsplit('::', 1)[1]
+        fam = v.attrs['family']; op = ctx.name.rsplit('::', 1)[1]
         cnt, _ = self.get(st, fam + '_count', None)
         if op == 'contains':
             c, _ = self.get(st, fam, self.asset(st, ctx.args[1]))
@@ -198,7 +198,7 @@ class World:
 
     def h_l0(self, ctx):
         st = ctx.st
-        meth = re.search(r'>::(\w+)', ctx.callee).group(1)
+        meth = re.search(r'>::(\w+)$', ctx.name).group(1)
         if meth == 'record':
             st.world['events'].append(ctx.args[1])
             st.log.append(('write', 'events', None, ctx.args[1], True, self.state_token(st, ctx.args[0])))
@@ -373,16 +373,21 @@ class World:
     def m_put_ibc_asset(self, ctx, a, comp):
         return self.putter(ctx, 'has_ibc_asset', ctx.args[1:2], z3.BoolVal(True))
 
-    def fee_tag(self, callee):
+    def fee_tag(self, callee, st=None):
         m = re.search(r'(get_fees|put_fees)::<(.+)>$', callee)
-        name = type_head(m.group(2)).split('::')[-1] if m else '?'
+        from mirsym.mir import split_top
+        name = type_head(split_top(m.group(2))[-1]).split('::')[-1] if m else '?'
+        if re.match(r'^[A-Z]\w{0,2}$', name):       # a generic parameter: bound by the obligation
+            if st is None or 'generic_F' not in st.world:
+                raise MirError('get_fees::<F> with unbound generic F')
+            name = st.world['generic_F']
         if name not in self.fee_tags:
             self.fee_tags[name] = len(self.fee_tags) + 1
         return z3.BitVecVal(self.fee_tags[name], 8), name
 
     def m_get_fees(self, ctx, a, comp):
         st = ctx.st
-        tag, name = self.fee_tag(ctx.callee)
+        tag, name = self.fee_tag(ctx.callee, ctx.st)
 
         def alts(ex, s2, fut):
             b, p = self.get(s2, 'fees_base', tag)
@@ -398,7 +403,7 @@ class World:
 
     def m_put_fees(self, ctx, a, comp):
         st = ctx.st
-        tag, name = self.fee_tag(ctx.callee)
+        tag, name = self.fee_tag(ctx.callee, ctx.st)
         fc = self.ex.deref_val(st, ctx.args[1]); a_ = self.ex.adts.lookup('astria_core::protocol::fees::v1::FeeComponents')
         b = self.ex.read(st, ('field', fc, (None, a_['fields'].index('base'), 'u128')))
         mu = self.ex.read(st, ('field', fc, (None, a_['fields'].index('multiplier'), 'u128')))
